@@ -9,6 +9,13 @@ ids = [json.loads(l)["id"] for l in open(os.path.join(HERE, "properties.jsonl"))
 TRUST = ("TLC 1.8 and the TLA+ semantics; harness/absmap.py (gamma builds real objects through the public DSL, "
          "alpha reads public props/paths/errors); the bounded universes stated in the evidence file")
 
+COMMON = (" Across all checks: every schema is written through the public construction routes in turn (unions via "
+          "schema.any / | in several shapes, dicts directly / via make_required / via +), custom types through a "
+          "registered class or a class factory; every acceptance observation records get_errors(), has_errors(), ==, != "
+          "and validate_or_fail, and spec/Trace_Entry.tla requires them to agree; model-dependent differences are "
+          "reported as drift (NOTE), never as violations; findings recorded in known_findings.json are printed as "
+          "KNOWN-FINDING by signature.")
+
 CHECKS = {
  "C19": dict(
     text="TLC explores spec/MC_Migrate.tla: modules assembled row by row from a menu of import forms (one line, "
@@ -203,7 +210,7 @@ for pid in ids:
             "evidence_file": "/verif/evidence/%s.json" % pid,
             "replay_cmd_template": "./check %s --replay {path}" % pid,
             "engine": "tlc",
-            "level_claimed": {"category": "model_checking", "text": c["text"], "design_ref": c["design"]},
+            "level_claimed": {"category": "model_checking", "text": c["text"] + COMMON, "design_ref": c["design"]},
             "level_note": c.get("note", TRUST),
             "technique": c["technique"],
         })
